@@ -9,6 +9,7 @@ import Fbr.Lemmas.OvlInv
 import Fbr.Lemmas.OvlSimLookup
 import Fbr.Lemmas.OvlSimRO
 import Fbr.Lemmas.OvlOps
+import Fbr.Lemmas.OvlAll
 
 namespace Fbr.Thm.C11
 open Fbr.Ovl
